@@ -393,6 +393,11 @@ class LatticeColumn:
         c = self.o[matching.obs_ne]
         if matching.key in c:
             other_matching = c[matching.key]  # type: BaseMatching
+            if other_matching.stop and not matching.stop:
+                # A stopped matching (only kept when debugging) should not influence
+                # the order of the matchings in this column.
+                del c[matching.key]
+                c[matching.key] = other_matching
             other_matching.update(matching)
         else:
             c[matching.key] = matching
